@@ -164,6 +164,29 @@ def run(prop, tier):
             out.add_findings(f)
             per_cfg[cfg]["cli_runs"] = n
     extra = {}
+    if prop in ("C03", "C01"):
+        # the existential layer: spec/ZyExists.tla (escape and representation-independence rules), every program replayed
+        cfg = "MC_ZyExists_2.cfg" if tier == "quick" else "MC_ZyExists_3.cfg"
+        tout = os.path.join(W, "exists.out")
+        res = lib.run_tlc("ZyExists.tla", cfg, tout, workers=4, coverage=False, timeout=3000)
+        ecases = os.path.join(W, "exists.cases.ndjson")
+        n = lib.extract_replay(tout, ecases)
+        os.remove(tout)
+        require(n >= 400, "too few existential programs: %d" % n)
+        esum = os.path.join(W, "exists.%s.summary.json" % prop)
+        lib.zyconf(["replay-exists", ecases, esum], timeout=3000)
+        es = json.load(open(esum))
+        require(all(es["classes"].get(k, 0) > 0 for k in ("accepted-and-run", "rejected-escape", "rejected-mismatch")), "existential replay exercised too few outcomes: %s" % es["classes"])
+        for f in es["findings"]:
+            # an accepted program that goes wrong at run time is C01's business, a wrong verdict C03's
+            f = dict(f)
+            f["property"] = "C01" if f["kind"] == "existential-program-behaviour" else "C03"
+            out.add_findings([f])
+        states += res["distinct"]
+        transitions += res["generated"]
+        replayed += es["cases"]
+        per_cfg[cfg] = {"programs": es["cases"], "classes": es["classes"]}
+        samples += [{"family": "existential", "source": x} for x in es["samples"][:1]]
     if prop == "C01":
         f, extra = corpus(out, tier)
         out.add_findings(f)
